@@ -120,4 +120,882 @@ theorem sortDecls_perm (m : SMap) : (sortDecls m).Perm m := by
     simp only [List.foldr_cons]
     exact (insertSorted_perm e _).trans (List.Perm.cons e ih)
 
+/-! ### the tokenizer's attribute step on attributes with distinct qualified names -/
+
+def splitAttr (r : RawAttr) : RAttr := ⟨splitQName r.name, r.value⟩
+
+theorem isDeclName_fixed (n : RName) : isDeclName TokCfg.fixed n = isDecl n := by
+  unfold isDeclName isDecl TokCfg.fixed
+  cases h1 : n.pfx == some sXmlns <;> cases h2 : n.pfx == none <;> cases h3 : n.loc == sXmlns <;> simp
+
+/-- declarations are collected at the front in reverse order, the other attributes behind them in
+source order; nothing is dropped -/
+theorem foldl_fixed_struct (raw : List RawAttr) (acc : List RAttr)
+    (hne : ∀ r ∈ raw, r.name ≠ [])
+    (hnd : (acc.map (·.name) ++ raw.map (fun r => splitQName r.name)).Nodup) :
+    raw.foldl (finishAttribute TokCfg.fixed) acc =
+      ((raw.map splitAttr).filter (fun a => isDecl a.name)).reverse ++ acc ++
+        (raw.map splitAttr).filter (fun a => !isDecl a.name) := by
+  induction raw generalizing acc with
+  | nil => simp
+  | cons r rest ih =>
+    have hr := hne r (by simp)
+    have hrest : ∀ x ∈ rest, x.name ≠ [] := fun x hx => hne x (by simp [hx])
+    have hnot : splitQName r.name ∉ acc.map (·.name) := by
+      intro hm
+      have := (List.nodup_append.mp hnd).2.2 _ hm (splitQName r.name) (by simp)
+      exact this rfl
+    have hdup : isDup TokCfg.fixed acc r.name = false := by
+      simp only [isDup, TokCfg.fixed, ↓reduceIte]
+      rw [Bool.eq_false_iff]
+      intro h
+      obtain ⟨x, hx, hxe⟩ := List.any_eq_true.mp h
+      exact hnot (List.mem_map.mpr ⟨x, hx, by simpa using hxe⟩)
+    simp only [List.foldl_cons, finishAttribute, hr, ↓reduceIte, hdup, Bool.false_eq_true, pushAttr,
+      isDeclName_fixed]
+    by_cases hd : isDecl (splitQName r.name) = true
+    · simp only [hd, ↓reduceIte]
+      rw [ih _ hrest (by
+        have : (acc.map (·.name) ++ splitQName r.name :: rest.map (fun r => splitQName r.name)).Nodup := by
+          simpa using hnd
+        have := (List.perm_middle.nodup_iff).mp this
+        simpa using this)]
+      simp [splitAttr, List.filter_cons, hd]
+    · simp only [hd, Bool.false_eq_true, ↓reduceIte]
+      rw [ih _ hrest (by simpa using hnd)]
+      simp [splitAttr, List.filter_cons, hd]
+
+theorem tagAttrs_fixed_struct (raw : List RawAttr) (hne : ∀ r ∈ raw, r.name ≠ [])
+    (hnd : (raw.map (fun r => splitQName r.name)).Nodup) :
+    tagAttrs TokCfg.fixed raw =
+      ((raw.map splitAttr).filter (fun a => isDecl a.name)).reverse ++
+        (raw.map splitAttr).filter (fun a => !isDecl a.name) := by
+  have := foldl_fixed_struct raw [] hne (by simpa using hnd)
+  simpa [tagAttrs] using this
+
+/-! ### the fixed `start_elem`: registering the names of a tag in the top map -/
+
+def needs (x : QName) : Bool := x.pfx.isSome || x.ns != []
+
+/-- `find_or_insert_ns` seen on the top map -/
+def reg1 (sst : List SMap) (F : SMap) (x : QName) : SMap :=
+  if needs x && !Model.XmlSer.findUri (F :: sst) x then F.insert x.pfx x.ns else F
+
+theorem findOrInsert_cons (F : SMap) (sst : List SMap) (x : QName) :
+    findOrInsert (F :: sst) x = reg1 sst F x :: sst := by
+  unfold findOrInsert reg1 needs insertTop
+  split <;> rfl
+
+def regAll (sst : List SMap) (F : SMap) (xs : List QName) : SMap := xs.foldl (reg1 sst) F
+
+theorem foldl_findOrInsert (as : List Attr) (F : SMap) (sst : List SMap) :
+    as.foldl (fun st a => findOrInsert st a.name) (F :: sst) = regAll sst F (as.map (·.name)) :: sst := by
+  induction as generalizing F with
+  | nil => rfl
+  | cons a rest ih =>
+    simp only [List.foldl_cons, findOrInsert_cons, List.map_cons, regAll]
+    exact ih _
+
+/-- the top map after the fixed `start_elem` has registered the element name, the default
+un-declaration and the attribute names -/
+def topFixed (sst : List SMap) (n : QName) (as : List Attr) : SMap :=
+  let F0 := reg1 sst [] n
+  let F1 := if n.pfx.isNone && n.ns == [] && defaultBound (F0 :: sst) then F0.insert none [] else F0
+  regAll sst F1 (as.map (·.name))
+
+theorem startElem_fixed (sst : List SMap) (n : QName) (as : List Attr) :
+    startElem SerCfg.fixed sst n as =
+      (.startTag n (sortDecls (topFixed sst n as)) as, topFixed sst n as :: sst) := by
+  unfold startElem topFixed
+  simp only [SerCfg.fixed, findOrInsert_cons, Bool.true_and, ↓reduceIte, insertTop]
+  by_cases hc : (n.pfx.isNone && n.ns == [] && defaultBound (reg1 sst [] n :: sst)) = true
+  · simp only [hc, ↓reduceIte, foldl_findOrInsert]
+  · simp only [hc, Bool.false_eq_true, ↓reduceIte, foldl_findOrInsert]
+
+theorem endElem_fixed (st : List SMap) (n : QName) : endElem SerCfg.fixed st n = (.endTag n, st.tail) := rfl
+
+theorem findUri_cons (F : SMap) (sst : List SMap) (x : QName) :
+    Model.XmlSer.findUri (F :: sst) x = match F.lookup x.pfx with
+      | some v => v == x.ns
+      | none => Model.XmlSer.findUri sst x := by
+  unfold Model.XmlSer.findUri
+  simp only [List.findSome?_cons]
+  cases F.lookup x.pfx <;> rfl
+
+theorem findUri_congr (st : List SMap) (x y : QName) (hp : y.pfx = x.pfx) (hn : y.ns = x.ns) :
+    Model.XmlSer.findUri st y = Model.XmlSer.findUri st x := by
+  unfold Model.XmlSer.findUri; rw [hp, hn]
+
+/-- the name needs no declaration, or the stack already binds its prefix to its namespace -/
+def Sat (x : QName) (st : List SMap) : Prop := needs x = false ∨ Model.XmlSer.findUri st x = true
+
+theorem reg1_sat (sst : List SMap) (F : SMap) (x : QName) : Sat x (reg1 sst F x :: sst) := by
+  unfold Sat reg1
+  by_cases hn : needs x = true
+  · by_cases hf : Model.XmlSer.findUri (F :: sst) x = true
+    · right; simp [hn, hf]
+    · right
+      have hf' : Model.XmlSer.findUri (F :: sst) x = false := by simpa using hf
+      simp only [hn, hf', Bool.not_false, Bool.and_self, ↓reduceIte]
+      rw [findUri_cons, lookup_insert]; simp
+  · left; simpa using hn
+
+theorem reg1_preserves (sst : List SMap) (F : SMap) (x y : QName) (hy : Sat y (F :: sst))
+    (hc : y.pfx = x.pfx → needs y = true → y.ns = x.ns) : Sat y (reg1 sst F x :: sst) := by
+  unfold reg1
+  split
+  · rename_i hins
+    rcases hy with hy | hy
+    · exact Or.inl hy
+    · by_cases hp : y.pfx = x.pfx
+      · by_cases hny : needs y = true
+        · -- same prefix, same namespace: `x` would have been found too
+          have hns := hc hp hny
+          have : Model.XmlSer.findUri (F :: sst) x = true := by
+            rw [← findUri_congr (F :: sst) x y hp hns]; exact hy
+          simp [this] at hins
+        · exact Or.inl (by simpa using hny)
+      · right
+        rw [findUri_cons, lookup_insert]
+        simp only [hp, ↓reduceIte]
+        rw [findUri_cons] at hy; exact hy
+  · exact hy
+
+theorem regAll_sat (sst : List SMap) (xs : List QName) (F : SMap) (done : List QName)
+    (hdone : ∀ y ∈ done, Sat y (F :: sst))
+    (hc : ∀ x ∈ done ++ xs, ∀ y ∈ done ++ xs, y.pfx = x.pfx → needs y = true → y.ns = x.ns) :
+    ∀ y ∈ done ++ xs, Sat y (regAll sst F xs :: sst) := by
+  induction xs generalizing F done with
+  | nil => simpa [regAll] using hdone
+  | cons x rest ih =>
+    have := ih (reg1 sst F x) (done ++ [x]) (by
+      intro y hy
+      rcases List.mem_append.mp hy with hy | hy
+      · exact reg1_preserves sst F x y (hdone y hy) (hc x (by simp) y (by simp [hy]))
+      · simp at hy; subst hy; exact reg1_sat sst F y) (by simpa using hc)
+    simpa [regAll] using this
+
+/-! invariants of the maps -/
+
+/-- keys are distinct; only the prefix `xmlns` is ever bound to the xmlns URI; prefixes are proper
+names (non-empty, no colon) -/
+structure GoodMap (F : SMap) : Prop where
+  nodup : (F.map Prod.fst).Nodup
+  xmlnsVal : ∀ p v, (p, v) ∈ F → v = XMLNS_URI → p = some sXmlns
+  keyOK : ∀ p v, (some p, v) ∈ F → p ≠ [] ∧ ':' ∉ p
+
+theorem goodMap_nil : GoodMap [] := ⟨by simp, by simp, by simp⟩
+
+theorem GoodMap.tail {e : Option Str × Str} {F : SMap} (h : GoodMap (e :: F)) : GoodMap F :=
+  ⟨(List.nodup_cons.mp (by simpa using h.nodup)).2,
+   fun p v hm => h.xmlnsVal p v (List.mem_cons_of_mem _ hm),
+   fun p v hm => h.keyOK p v (List.mem_cons_of_mem _ hm)⟩
+
+theorem mem_insert (F : SMap) (k : Option Str) (v : Str) (e : Option Str × Str) (h : e ∈ F.insert k v) :
+    e = (k, v) ∨ e ∈ F := by
+  unfold SMap.insert at h
+  rcases List.mem_cons.mp h with h | h
+  · exact Or.inl h
+  · exact Or.inr (List.mem_filter.mp h).1
+
+theorem goodMap_insert (F : SMap) (k : Option Str) (v : Str) (h : GoodMap F)
+    (h1 : v = XMLNS_URI → k = some sXmlns) (h2 : ∀ p, k = some p → p ≠ [] ∧ ':' ∉ p) :
+    GoodMap (F.insert k v) := by
+  refine ⟨nodup_insert F k v h.nodup, ?_, ?_⟩
+  · intro p v' hm hv
+    rcases mem_insert F k v _ hm with he | he
+    · simp only [Prod.mk.injEq] at he; obtain ⟨rfl, rfl⟩ := he; exact h1 hv
+    · exact h.xmlnsVal p v' he hv
+  · intro p v' hm
+    rcases mem_insert F k v _ hm with he | he
+    · simp only [Prod.mk.injEq] at he; exact h2 p he.1.symm
+    · exact h.keyOK p v' he
+
+/-- what registration needs to know about a name -/
+structure RegOK (x : QName) : Prop where
+  xmlnsUri : x.ns = XMLNS_URI → x.pfx = some sXmlns
+  pfxOK : ∀ p, x.pfx = some p → p ≠ [] ∧ ':' ∉ p
+
+theorem goodMap_reg1 (sst : List SMap) (F : SMap) (x : QName) (h : GoodMap F) (hx : RegOK x) :
+    GoodMap (reg1 sst F x) := by
+  unfold reg1
+  split
+  · exact goodMap_insert F _ _ h hx.xmlnsUri hx.pfxOK
+  · exact h
+
+theorem goodMap_regAll (sst : List SMap) (xs : List QName) (F : SMap) (h : GoodMap F)
+    (hx : ∀ x ∈ xs, RegOK x) : GoodMap (regAll sst F xs) := by
+  induction xs generalizing F with
+  | nil => exact h
+  | cons x rest ih =>
+    exact ih _ (goodMap_reg1 sst F x h (hx x (by simp))) (fun y hy => hx y (by simp [hy]))
+
+/-! ### from the serializer's maps to the Spec's frames -/
+
+/-- what the parser makes of a written declaration -/
+def eEntry (e : Option Str × Str) : Option (Option Str × Option Str) :=
+  if e.1 = some sXml ∨ e.1 = some sXmlns ∨ e.2 = XMLNS_URI then none else some (e.1, optUri e.2)
+
+/-- the Spec frame of a serializer map -/
+def eframe (F : SMap) : NsFrame := F.filterMap eEntry
+
+theorem eEntry_fst (e : Option Str × Str) (r : Option Str × Option Str) (h : eEntry e = some r) :
+    r.1 = e.1 := by
+  unfold eEntry at h; split at h <;> simp at h; rw [← h]
+
+theorem eframe_keys_sublist (F : SMap) : ((eframe F).map Prod.fst).Sublist (F.map Prod.fst) := by
+  induction F with
+  | nil => simp [eframe]
+  | cons e rest ih =>
+    unfold eframe at ih ⊢
+    simp only [List.filterMap_cons]
+    match he : eEntry e with
+    | none => exact ih.cons _
+    | some r =>
+      simp only [List.map_cons]
+      rw [eEntry_fst e r he]
+      exact ih.cons₂ _
+
+theorem eframe_nodup (F : SMap) (h : GoodMap F) : ((eframe F).map Prod.fst).Nodup :=
+  h.nodup.sublist (eframe_keys_sublist F)
+
+theorem eframe_lookup (F : SMap) (h : GoodMap F) (p : Option Str) (hp1 : p ≠ some sXml)
+    (hp2 : p ≠ some sXmlns) : (eframe F).lookup p = (F.lookup p).map optUri := by
+  induction F with
+  | nil => simp [eframe]
+  | cons e rest ih =>
+    obtain ⟨k, v⟩ := e
+    have ih' := ih h.tail
+    unfold eframe at ih' ⊢
+    simp only [List.filterMap_cons, List.lookup_cons]
+    by_cases hk : p = k
+    · subst hk
+      have hv : v ≠ XMLNS_URI := fun e => hp2 (h.xmlnsVal p v (by simp) e)
+      simp [eEntry, hp1, hp2, hv, List.lookup_cons]
+    · have hb : (p == k) = false := by simpa using hk
+      simp only [hb]
+      match he : eEntry (k, v) with
+      | none => simpa using ih'
+      | some r =>
+        have := eEntry_fst _ r he
+        simp only at this
+        obtain ⟨r1, r2⟩ := r
+        simp only at this; subst this
+        simp only [List.lookup_cons, hb]
+        exact ih'
+
+theorem eframe_clean (F : SMap) : Clean (eframe F) := by
+  constructor
+  · rw [List.lookup_eq_none_iff]
+    intro r hr
+    obtain ⟨e, _, he⟩ := List.mem_filterMap.mp hr
+    have h1 := eEntry_fst e r he
+    unfold eEntry at he
+    split at he
+    · simp at he
+    · rename_i hne
+      simp only [bne_iff_ne, ne_eq]
+      rw [h1]; intro heq; exact hne (Or.inl heq.symm)
+  · rw [List.lookup_eq_none_iff]
+    intro r hr
+    obtain ⟨e, _, he⟩ := List.mem_filterMap.mp hr
+    have h1 := eEntry_fst e r he
+    unfold eEntry at he
+    split at he
+    · simp at he
+    · rename_i hne
+      simp only [bne_iff_ne, ne_eq]
+      rw [h1]; intro heq; exact hne (Or.inr (Or.inl heq.symm))
+
+/-! ### names and values of a parsed tag, and how the fixed output is lexed -/
+
+/-- a name the tokenizer can have produced: writing it and splitting it again gives it back -/
+structure NameOK (x : QName) : Prop where
+  split : splitQName (rawName x) = ⟨x.pfx, x.loc⟩
+  nonempty : rawName x ≠ []
+
+theorem NameOK.pfxOK {x : QName} (h : NameOK x) (p : Str) (hp : x.pfx = some p) : p ≠ [] ∧ ':' ∉ p := by
+  have hs := h.split
+  rw [hp] at hs
+  have := C16_splitQName_some _ p x.loc hs
+  exact ⟨this.2.1, this.2.2.1⟩
+
+/-- an element name as the (fixed) parser produces it -/
+structure ElemNameOK (x : QName) : Prop extends NameOK x where
+  xml : x.pfx = some sXml → x.ns = XML_URI
+  xmlns : x.pfx = some sXmlns → x.ns = XMLNS_URI
+  xmlnsUri : x.ns = XMLNS_URI → x.pfx = some sXmlns
+
+/-- an attribute name as the (fixed) parser produces it -/
+structure AttrNameOK (x : QName) : Prop extends NameOK x where
+  xml : x.pfx = some sXml → x.ns = XML_URI
+  notXmlns : x.pfx ≠ some sXmlns
+  noXmlnsUri : x.ns ≠ XMLNS_URI
+  unprefixed : x.pfx = none → x.ns = [] ∧ x.loc ≠ sXmlns
+
+/-- a tag as the (fixed) parser produces it -/
+structure TagOKP (n : QName) (as : List Attr) : Prop where
+  name : ElemNameOK n
+  attrs : ∀ a ∈ as, AttrNameOK a.name
+  distinct : (as.map (fun a => (⟨a.name.pfx, a.name.loc⟩ : RName))).Nodup
+  expanded : ((as.filter (fun a => a.name.pfx.isSome)).map (fun a => (a.name.ns, a.name.loc))).Nodup
+  consistent : ∀ x ∈ n :: as.map (·.name), ∀ y ∈ n :: as.map (·.name),
+    y.pfx = x.pfx → needs y = true → y.ns = x.ns
+
+theorem ElemNameOK.regOK {x : QName} (h : ElemNameOK x) : RegOK x :=
+  ⟨h.xmlnsUri, fun p hp => h.toNameOK.pfxOK p hp⟩
+theorem AttrNameOK.regOK {x : QName} (h : AttrNameOK x) : RegOK x :=
+  ⟨fun e => absurd e h.noXmlnsUri, fun p hp => h.toNameOK.pfxOK p hp⟩
+
+theorem lexAttrValue_fixed (v : Str) :
+    lexAttrValue LexCfg.fixed (escape SerCfg.fixed true v) = v := by
+  unfold lexAttrValue
+  simp only [LexCfg.fixed, ↓reduceIte]
+  rw [normalize_noCR _ (escape_noCR SerCfg.fixed true v (Or.inr rfl)), unescape_escape]
+
+/-- the raw attribute written for a declaration / for an attribute -/
+def declRaw (d : Option Str × Str) : RawAttr :=
+  ⟨declName d.1, lexAttrValue LexCfg.fixed (declValue SerCfg.fixed d.2)⟩
+def attrRaw (a : Attr) : RawAttr :=
+  ⟨rawName a.name, lexAttrValue LexCfg.fixed (escape SerCfg.fixed true a.value)⟩
+
+theorem splitQName_xmlns : splitQName sXmlns = ⟨none, sXmlns⟩ := by decide
+
+theorem splitAttr_declRaw (d : Option Str × Str) (hk : ∀ p, d.1 = some p → p ≠ [] ∧ ':' ∉ p) :
+    splitAttr (declRaw d) = ⟨declNameOf d.1, d.2⟩ := by
+  obtain ⟨k, v⟩ := d
+  have hv : lexAttrValue LexCfg.fixed (declValue SerCfg.fixed v) = v := by
+    simp only [declValue, SerCfg.fixed, ↓reduceIte]; exact lexAttrValue_fixed v
+  unfold splitAttr declRaw
+  simp only [hv]
+  match k, hk with
+  | none, _ => simp [declName, declNameOf, splitQName_xmlns]
+  | some p, hk =>
+    have := hk p rfl
+    simp only [declName, declNameOf]
+    rw [C16_splitQName_split sXmlns p (by decide) (by decide) this.1 this.2]
+
+theorem splitAttr_attrRaw (a : Attr) (h : NameOK a.name) :
+    splitAttr (attrRaw a) = ⟨⟨a.name.pfx, a.name.loc⟩, a.value⟩ := by
+  unfold splitAttr attrRaw
+  simp only [h.split, lexAttrValue_fixed]
+
+theorem declOf_declNameOf (k : Option Str) (v : Str) : declOf ⟨declNameOf k, v⟩ = eEntry (k, v) := by
+  unfold declOf eEntry
+  match k with
+  | none =>
+    have h1 : isDecl (⟨none, sXmlns⟩ : RName) = true := by decide
+    simp only [declNameOf, h1, Bool.not_true, Bool.false_eq_true, ↓reduceIte]
+    by_cases hv : v = XMLNS_URI
+    · simp [hv]
+    · simp [hv]
+  | some p =>
+    have h1 : isDecl (⟨some sXmlns, p⟩ : RName) = true := by simp [isDecl]
+    simp only [declNameOf, h1, Bool.not_true, Bool.false_eq_true, ↓reduceIte]
+    by_cases hv : v = XMLNS_URI
+    · simp [hv]
+    · simp only [hv, ↓reduceIte, Option.some.injEq, or_false]
+      by_cases hx : p = sXml ∨ p = sXmlns
+      · simp [hx]
+      · simp [hx]
+
+theorem isDecl_declNameOf (k : Option Str) : isDecl (declNameOf k) = true := by
+  cases k <;> simp [isDecl, declNameOf]
+
+theorem declNameOf_inj (k1 k2 : Option Str) (h : declNameOf k1 = declNameOf k2) : k1 = k2 := by
+  match k1, k2, h with
+  | none, none, _ => rfl
+  | none, some _, h => simp [declNameOf] at h
+  | some _, none, h => simp [declNameOf] at h
+  | some a, some b, h => simp [declNameOf] at h; simp [h]
+
+theorem attr_not_decl (x : QName) (h : AttrNameOK x) : isDecl ⟨x.pfx, x.loc⟩ = false := by
+  unfold isDecl
+  have h1 : (x.pfx == some sXmlns) = false := by simpa using h.notXmlns
+  cases hp : x.pfx with
+  | none =>
+    have := (h.unprefixed hp).2
+    have h2 : (x.loc == sXmlns) = false := by simpa using this
+    simp [h2]
+  | some q => rw [hp] at h1; simp [h1]
+
+theorem nodup_map_of_inj {α β : Type} (f : α → β) (hf : ∀ a b, f a = f b → a = b) (l : List α)
+    (h : l.Nodup) : (l.map f).Nodup := by
+  induction l with
+  | nil => simp
+  | cons a rest ih =>
+    simp only [List.nodup_cons] at h
+    simp only [List.map_cons, List.nodup_cons]
+    refine ⟨?_, ih h.2⟩
+    intro hm
+    obtain ⟨b, hb, hbe⟩ := List.mem_map.mp hm
+    have := hf _ _ hbe; subst this
+    exact h.1 hb
+
+theorem goodMap_perm {F G : SMap} (hp : G.Perm F) (h : GoodMap F) : GoodMap G :=
+  ⟨((hp.map Prod.fst).nodup_iff).mpr h.nodup,
+   fun p v hm => h.xmlnsVal p v (hp.mem_iff.mp hm),
+   fun p v hm => h.keyOK p v (hp.mem_iff.mp hm)⟩
+
+def declRAttrs (decls : SMap) : List RAttr := decls.map (fun d => ⟨declNameOf d.1, d.2⟩)
+def attrRAttrs (as : List Attr) : List RAttr := as.map (fun a => ⟨⟨a.name.pfx, a.name.loc⟩, a.value⟩)
+
+theorem filter_decl_D (decls : SMap) : (declRAttrs decls).filter (fun a => isDecl a.name) = declRAttrs decls := by
+  apply List.filter_eq_self.mpr
+  intro a ha
+  obtain ⟨d, _, rfl⟩ := List.mem_map.mp ha
+  exact isDecl_declNameOf d.1
+
+theorem filter_ndecl_D (decls : SMap) : (declRAttrs decls).filter (fun a => !isDecl a.name) = [] := by
+  apply List.filter_eq_nil_iff.mpr
+  intro a ha
+  obtain ⟨d, _, rfl⟩ := List.mem_map.mp ha
+  simp [isDecl_declNameOf d.1]
+
+theorem filter_decl_A (as : List Attr) (h : ∀ a ∈ as, AttrNameOK a.name) :
+    (attrRAttrs as).filter (fun a => isDecl a.name) = [] := by
+  apply List.filter_eq_nil_iff.mpr
+  intro a ha
+  obtain ⟨x, hx, rfl⟩ := List.mem_map.mp ha
+  simp [attr_not_decl x.name (h x hx)]
+
+theorem filter_ndecl_A (as : List Attr) (h : ∀ a ∈ as, AttrNameOK a.name) :
+    (attrRAttrs as).filter (fun a => !isDecl a.name) = attrRAttrs as := by
+  apply List.filter_eq_self.mpr
+  intro a ha
+  obtain ⟨x, hx, rfl⟩ := List.mem_map.mp ha
+  simp [attr_not_decl x.name (h x hx)]
+
+/-- **the tag the tokenizer delivers for a fixed start tag** -/
+theorem tagOf_fixed (n : QName) (as : List Attr) (decls : SMap) (hd : GoodMap decls) (ht : TagOKP n as) :
+    tagOf SerCfg.fixed LexCfg.fixed n decls as =
+      ⟨.start, ⟨n.pfx, n.loc⟩, (declRAttrs decls).reverse ++ attrRAttrs as⟩ := by
+  have hraw : (decls.map declRaw ++ as.map attrRaw).map splitAttr = declRAttrs decls ++ attrRAttrs as := by
+    simp only [List.map_append, List.map_map, declRAttrs, attrRAttrs]
+    congr 1
+    · apply List.map_congr_left
+      intro d hdm
+      exact splitAttr_declRaw d (fun p hp => hd.keyOK p d.2 (by rw [← hp]; exact hdm))
+    · apply List.map_congr_left
+      intro a ha
+      exact splitAttr_attrRaw a (ht.attrs a ha).toNameOK
+  have hne : ∀ r ∈ decls.map declRaw ++ as.map attrRaw, r.name ≠ [] := by
+    intro r hr
+    rcases List.mem_append.mp hr with hr | hr
+    · obtain ⟨d, _, rfl⟩ := List.mem_map.mp hr
+      simp only [declRaw, declName]
+      cases d.1 <;> simp [sXmlns] <;> decide
+    · obtain ⟨a, ha, rfl⟩ := List.mem_map.mp hr
+      exact (ht.attrs a ha).toNameOK.nonempty
+  have hnames : (decls.map declRaw ++ as.map attrRaw).map (fun r => splitQName r.name) =
+      (declRAttrs decls ++ attrRAttrs as).map (·.name) := by
+    rw [← hraw, List.map_map]; rfl
+  have hnd : ((decls.map declRaw ++ as.map attrRaw).map (fun r => splitQName r.name)).Nodup := by
+    rw [hnames, List.map_append, List.nodup_append]
+    refine ⟨?_, ?_, ?_⟩
+    · have : (declRAttrs decls).map (·.name) = (decls.map Prod.fst).map declNameOf := by
+        simp [declRAttrs]
+      rw [this]
+      exact nodup_map_of_inj declNameOf declNameOf_inj _ hd.nodup
+    · have : (attrRAttrs as).map (·.name) = as.map (fun a => (⟨a.name.pfx, a.name.loc⟩ : RName)) := by
+        simp [attrRAttrs]
+      rw [this]; exact ht.distinct
+    · intro x hx y hy hxy
+      subst hxy
+      obtain ⟨d, hdm, rfl⟩ := List.mem_map.mp hx
+      obtain ⟨d', _, rfl⟩ := List.mem_map.mp hdm
+      obtain ⟨a, ham, hae⟩ := List.mem_map.mp hy
+      obtain ⟨a', ha', rfl⟩ := List.mem_map.mp ham
+      have h1 := isDecl_declNameOf d'.1
+      have h2 := attr_not_decl a'.name (ht.attrs a' ha')
+      simp only at hae
+      rw [← hae] at h1
+      rw [h1] at h2; cases h2
+  have hs := tagAttrs_fixed_struct _ hne hnd
+  rw [hraw] at hs
+  simp only [List.filter_append, filter_decl_D, filter_decl_A as ht.attrs, filter_ndecl_D,
+    filter_ndecl_A as ht.attrs, List.append_nil, List.nil_append] at hs
+  unfold tagOf finishTag
+  simp only [LexCfg.fixed, ht.name.split]
+  have hl : (decls.map (fun d => (⟨declName d.1, lexAttrValue ⟨TokCfg.fixed, true⟩ (declValue SerCfg.fixed d.2)⟩ : RawAttr)) ++
+      as.map (fun a => (⟨rawName a.name, lexAttrValue ⟨TokCfg.fixed, true⟩ (escape SerCfg.fixed true a.value)⟩ : RawAttr))) =
+      decls.map declRaw ++ as.map attrRaw := rfl
+  rw [hl, hs]
+
+/-! ### the Spec frame of the lexed tag = the Spec frame of the serializer's top map -/
+
+theorem declOf_attrRAttr (a : Attr) (h : AttrNameOK a.name) :
+    declOf (⟨⟨a.name.pfx, a.name.loc⟩, a.value⟩ : RAttr) = none := by
+  unfold declOf; simp [attr_not_decl a.name h]
+
+theorem frameOf_tag (decls : SMap) (as : List Attr) (h : ∀ a ∈ as, AttrNameOK a.name) :
+    frameOf ((declRAttrs decls).reverse ++ attrRAttrs as) = (eframe decls).reverse := by
+  unfold frameOf
+  rw [List.filterMap_append, List.filterMap_reverse]
+  have h1 : (declRAttrs decls).filterMap declOf = eframe decls := by
+    unfold declRAttrs eframe
+    rw [List.filterMap_map]
+    congr 1
+    funext d
+    simp only [Function.comp]
+    exact declOf_declNameOf d.1 d.2
+  have h2 : (attrRAttrs as).filterMap declOf = [] := by
+    apply List.filterMap_eq_nil_iff.mpr
+    intro r hr
+    obtain ⟨a, ha, rfl⟩ := List.mem_map.mp hr
+    exact declOf_attrRAttr a (h a ha)
+  rw [h1, h2, List.append_nil]
+
+theorem frame_lookup (F : SMap) (hF : GoodMap F) (as : List Attr) (h : ∀ a ∈ as, AttrNameOK a.name)
+    (p : Option Str) :
+    (frameOf ((declRAttrs (sortDecls F)).reverse ++ attrRAttrs as)).lookup p = (eframe F).lookup p := by
+  rw [frameOf_tag _ as h]
+  have hperm : (eframe (sortDecls F)).reverse.Perm (eframe F) :=
+    (List.reverse_perm _).trans ((sortDecls_perm F).filterMap eEntry)
+  apply lookup_congr_of_mem
+  · exact ((hperm.map Prod.fst).nodup_iff).mpr (eframe_nodup F hF)
+  · exact eframe_nodup F hF
+  · intro e; exact hperm.mem_iff
+
+/-! ### stacks -/
+
+/-- each Spec frame answers like the Spec frame of the corresponding serializer map -/
+def FA : List SMap → List NsFrame → Prop
+  | [], [] => True
+  | F :: sst, f :: env => (∀ p, f.lookup p = (eframe F).lookup p) ∧ FA sst env
+  | _, _ => False
+
+def GoodStack (sst : List SMap) : Prop := ∀ F ∈ sst, GoodMap F
+
+theorem findSome_FA (sst : List SMap) (env : List NsFrame) (h : FA sst env) (hg : GoodStack sst)
+    (p : Option Str) (hp1 : p ≠ some sXml) (hp2 : p ≠ some sXmlns) :
+    env.findSome? (fun f => f.lookup p) = (sst.findSome? (fun m => m.lookup p)).map optUri := by
+  induction sst generalizing env with
+  | nil =>
+    cases env with
+    | nil => rfl
+    | cons _ _ => simp [FA] at h
+  | cons F rest ih =>
+    cases env with
+    | nil => simp [FA] at h
+    | cons f env' =>
+      obtain ⟨h1, h2⟩ := h
+      simp only [List.findSome?_cons]
+      rw [h1 p, eframe_lookup F (hg F (by simp)) p hp1 hp2]
+      cases F.lookup p with
+      | some v => simp
+      | none => simpa using ih env' h2 (fun G hG => hg G (by simp [hG]))
+
+theorem optUri_result (v : Str) :
+    (match some (optUri v) with
+      | some (some uri) => uri
+      | _ => []) = v := by
+  unfold optUri; split <;> simp_all
+
+/-- a name the serializer considers declared resolves to its namespace on the parser's side -/
+theorem lookupNs_sat (sst : List SMap) (env : List NsFrame) (h : FA sst env) (hg : GoodStack sst)
+    (x : QName) (hs : Sat x sst) (hn : needs x = true)
+    (hx1 : x.pfx = some sXml → x.ns = XML_URI) (hx2 : x.pfx = some sXmlns → x.ns = XMLNS_URI) :
+    lookupNs env x.pfx = x.ns := by
+  unfold lookupNs
+  by_cases h1 : x.pfx = some sXml
+  · simp [h1, hx1 h1]
+  · by_cases h2 : x.pfx = some sXmlns
+    · have : some sXmlns ≠ some sXml := by decide
+      simp [h2, this, hx2 h2]
+    · simp only [h1, h2, ↓reduceIte]
+      rw [findSome_FA sst env h hg x.pfx h1 h2]
+      rcases hs with hs | hs
+      · rw [hs] at hn; cases hn
+      · unfold Model.XmlSer.findUri at hs
+        generalize sst.findSome? (fun m => m.lookup x.pfx) = r at hs ⊢
+        match r, hs with
+        | some v, hs =>
+          have hv : v = x.ns := by simpa using hs
+          subst hv
+          simp only [Option.map_some]
+          exact optUri_result x.ns
+
+theorem lookupNs_default (sst : List SMap) (env : List NsFrame) (h : FA sst env) (hg : GoodStack sst)
+    (hd : defaultBound sst = false) : lookupNs env none = [] := by
+  unfold lookupNs
+  have h1 : (none : Option Str) ≠ some sXml := by simp
+  have h2 : (none : Option Str) ≠ some sXmlns := by simp
+  simp only [h1, h2, ↓reduceIte]
+  rw [findSome_FA sst env h hg none h1 h2]
+  unfold defaultBound at hd
+  generalize sst.findSome? (fun m => m.lookup none) = r at hd ⊢
+  match r, hd with
+  | none, _ => rfl
+  | some v, hd =>
+    have hv : v = [] := by simpa using hd
+    subst hv
+    rfl
+
+/-! ### what the fixed `start_elem` achieves -/
+
+theorem topFixed_good (sst : List SMap) (n : QName) (as : List Attr) (ht : TagOKP n as) :
+    GoodMap (topFixed sst n as) := by
+  unfold topFixed
+  apply goodMap_regAll
+  · have h0 := goodMap_reg1 sst [] n goodMap_nil ht.name.regOK
+    split
+    · exact goodMap_insert _ none [] h0 (fun e => absurd e (by decide)) (fun p hp => by cases hp)
+    · exact h0
+  · intro x hx
+    obtain ⟨a, ha, rfl⟩ := List.mem_map.mp hx
+    exact (ht.attrs a ha).regOK
+
+theorem topFixed_sat (sst : List SMap) (n : QName) (as : List Attr) (ht : TagOKP n as) :
+    ∀ y ∈ n :: as.map (·.name), Sat y (topFixed sst n as :: sst) := by
+  unfold topFixed
+  simp only []
+  have h0 : Sat n (reg1 sst [] n :: sst) := reg1_sat sst [] n
+  have h1 : Sat n ((if (n.pfx.isNone && n.ns == [] && defaultBound (reg1 sst [] n :: sst)) = true
+      then (reg1 sst [] n).insert none [] else reg1 sst [] n) :: sst) := by
+    split
+    · rename_i hc
+      left
+      simp only [Bool.and_eq_true, Option.isNone_iff_eq_none, beq_iff_eq] at hc
+      simp [needs, hc.1.1, hc.1.2]
+    · exact h0
+  have := regAll_sat sst (as.map (·.name)) _ [n] (by intro y hy; simp at hy; subst hy; exact h1)
+    (by simpa using ht.consistent)
+  simpa using this
+
+theorem defaultBound_cons (F : SMap) (sst : List SMap) :
+    defaultBound (F :: sst) = match F.lookup none with
+      | some ns => ns != []
+      | none => defaultBound sst := by
+  unfold defaultBound
+  simp only [List.findSome?_cons]
+  cases F.lookup none <;> rfl
+
+theorem reg1_lookup_none (sst : List SMap) (F : SMap) (x : QName) (hx : x.pfx = none → needs x = false) :
+    (reg1 sst F x).lookup none = F.lookup none := by
+  unfold reg1
+  split
+  · rename_i hc
+    rw [lookup_insert]
+    have : (none : Option Str) ≠ x.pfx := by
+      intro e
+      have := hx e.symm
+      simp [this] at hc
+    simp [this]
+  · rfl
+
+theorem regAll_lookup_none (sst : List SMap) (xs : List QName) (F : SMap)
+    (hx : ∀ x ∈ xs, x.pfx = none → needs x = false) :
+    (regAll sst F xs).lookup none = F.lookup none := by
+  induction xs generalizing F with
+  | nil => rfl
+  | cons x rest ih =>
+    simp only [regAll, List.foldl_cons]
+    have := ih (reg1 sst F x) (fun y hy => hx y (by simp [hy]))
+    simp only [regAll] at this
+    rw [this, reg1_lookup_none sst F x (hx x (by simp))]
+
+theorem topFixed_default (sst : List SMap) (n : QName) (as : List Attr) (ht : TagOKP n as)
+    (hn : needs n = false) : defaultBound (topFixed sst n as :: sst) = false := by
+  have hpn : n.pfx = none ∧ n.ns = [] := by
+    unfold needs at hn
+    simp only [Bool.or_eq_false_iff, Option.isSome_eq_false_iff, Option.isNone_iff_eq_none, bne_eq_false_iff_eq] at hn
+    exact hn
+  have hattr : ∀ x ∈ as.map (·.name), x.pfx = none → needs x = false := by
+    intro x hx hp
+    obtain ⟨a, ha, rfl⟩ := List.mem_map.mp hx
+    have := ((ht.attrs a ha).unprefixed hp).1
+    simp [needs, hp, this]
+  have h0 : reg1 sst [] n = [] := by unfold reg1; simp [hn]
+  rw [defaultBound_cons]
+  unfold topFixed
+  simp only [h0]
+  rw [regAll_lookup_none sst _ _ hattr]
+  by_cases hc : defaultBound ([] :: sst) = true
+  · simp [hpn.1, hpn.2, hc, lookup_insert]
+  · have hc' : defaultBound ([] :: sst) = false := by simpa using hc
+    simp only [hpn.1, hpn.2, hc', Option.isNone_none, beq_self_eq_true, Bool.and_false, Bool.false_eq_true, ↓reduceIte]
+    rw [defaultBound_cons] at hc'
+    simpa using hc'
+
+theorem dedup_id (seen : List (Str × Str)) (l : List Attr)
+    (hnd : ((l.filter (fun a => a.name.pfx.isSome)).map (fun a => (a.name.ns, a.name.loc))).Nodup)
+    (hdis : ∀ a ∈ l, a.name.pfx.isSome = true → (a.name.ns, a.name.loc) ∉ seen) :
+    dedupPrefixed seen l = l := by
+  induction l generalizing seen with
+  | nil => rfl
+  | cons a rest ih =>
+    unfold dedupPrefixed
+    by_cases hp : a.name.pfx.isSome = true
+    · have hns : (a.name.ns, a.name.loc) ∉ seen := hdis a (by simp) hp
+      have hc : seen.contains (a.name.ns, a.name.loc) = false := by simpa using hns
+      simp only [hp, ↓reduceIte, hc, Bool.false_eq_true]
+      simp only [List.filter_cons, hp, ↓reduceIte, List.map_cons, List.nodup_cons] at hnd
+      rw [ih _ hnd.2]
+      intro b hb hbp
+      simp only [List.mem_cons, not_or]
+      refine ⟨?_, hdis b (by simp [hb]) hbp⟩
+      intro e
+      apply hnd.1
+      rw [← e]
+      exact List.mem_map.mpr ⟨b, List.mem_filter.mpr ⟨hb, hbp⟩, rfl⟩
+    · simp only [hp, Bool.false_eq_true, ↓reduceIte]
+      simp only [List.filter_cons, hp, Bool.false_eq_true, ↓reduceIte] at hnd
+      rw [ih _ hnd (fun b hb hbp => hdis b (by simp [hb]) hbp)]
+
+/-- serializer stack, parser stack and Spec environment walk in step -/
+structure Rel (sst : List SMap) (pst : List NsMap) (env : List NsFrame) : Prop where
+  stack : StackAgree pst env
+  clean : ∀ f ∈ env, Clean f
+  fa : FA sst env
+  good : GoodStack sst
+
+theorem envOf_dummy (env : List NsFrame) : envOf (env.map (fun f => (⟨[], [], f⟩ : Scope))) = env := by
+  induction env <;> simp_all [envOf]
+
+/-- **one element**: the tag the fixed serializer writes, lexed and run through `process_namespaces`
+in the parser's current scope, gives back the element's own name and attribute list; and the three
+stacks stay in step for the element's content -/
+theorem elem_ok (sst : List SMap) (pst : List NsMap) (env : List NsFrame) (hR : Rel sst pst env)
+    (n : QName) (as : List Attr) (ht : TagOKP n as) :
+    (processNamespaces TbCfg.fixed pst
+        (tagOf SerCfg.fixed LexCfg.fixed n (sortDecls (topFixed sst n as)) as)).name = n ∧
+    (processNamespaces TbCfg.fixed pst
+        (tagOf SerCfg.fixed LexCfg.fixed n (sortDecls (topFixed sst n as)) as)).attrs = as ∧
+    Rel (topFixed sst n as :: sst)
+      ((processNamespaces TbCfg.fixed pst
+        (tagOf SerCfg.fixed LexCfg.fixed n (sortDecls (topFixed sst n as)) as)).map :: pst)
+      (frameOf (tagOf SerCfg.fixed LexCfg.fixed n (sortDecls (topFixed sst n as)) as).attrs :: env) := by
+  have hF := topFixed_good sst n as ht
+  have hFs : GoodMap (sortDecls (topFixed sst n as)) := goodMap_perm (sortDecls_perm _) hF
+  have htag := tagOf_fixed n as (sortDecls (topFixed sst n as)) hFs ht
+  generalize hF' : topFixed sst n as = F at *
+  have hnd : NoDupDecl (tagOf SerCfg.fixed LexCfg.fixed n (sortDecls F) as).attrs :=
+    noDupDecl_of_nodup_names _ (C16_tok_no_dup_qname_fixed _)
+  have hok : TagOK TbCfg.fixed (tagOf SerCfg.fixed LexCfg.fixed n (sortDecls F) as) := ⟨Or.inl rfl, hnd⟩
+  obtain ⟨hbn, hba, hbm⟩ := processNamespaces_eq TbCfg.fixed pst (env.map (fun f => (⟨[], [], f⟩ : Scope)))
+    (tagOf SerCfg.fixed LexCfg.fixed n (sortDecls F) as) hok
+    (by rw [envOf_dummy]; exact hR.stack) (by rw [envOf_dummy]; exact hR.clean)
+  rw [hbn, hba]
+  unfold resolveTag
+  simp only [envOf_dummy]
+  rw [htag] at hbm ⊢
+  simp only []
+  -- the stacks for the content
+  have hfa : FA (F :: sst) (frameOf ((declRAttrs (sortDecls F)).reverse ++ attrRAttrs as) :: env) :=
+    ⟨frame_lookup F hF as ht.attrs, hR.fa⟩
+  have hgood : GoodStack (F :: sst) := by
+    intro G hG; simp at hG; rcases hG with rfl | hG; exact hF; exact hR.good G hG
+  have hsat := topFixed_sat sst n as ht
+  rw [hF'] at hsat
+  refine ⟨?_, ?_, ?_⟩
+  · -- the element name
+    unfold resolveElemName
+    simp only []
+    by_cases hn : needs n = true
+    · rw [lookupNs_sat (F :: sst) _ hfa hgood n (hsat n (by simp)) hn ht.name.xml ht.name.xmlns]
+    · have hn' : needs n = false := by simpa using hn
+      have hpn : n.pfx = none ∧ n.ns = [] := by
+        unfold needs at hn'
+        simp only [Bool.or_eq_false_iff, Option.isSome_eq_false_iff, Option.isNone_iff_eq_none, bne_eq_false_iff_eq] at hn'
+        exact hn'
+      have hd := topFixed_default sst n as ht hn'
+      rw [hF'] at hd
+      rw [hpn.1, lookupNs_default (F :: sst) _ hfa hgood hd]
+      cases n; simp_all
+  · -- the attributes
+    unfold resolveAttrs
+    have hfilt : ((declRAttrs (sortDecls F)).reverse ++ attrRAttrs as).filter (fun a => !isDecl a.name) =
+        attrRAttrs as := by
+      rw [List.filter_append, List.filter_reverse, filter_ndecl_D, filter_ndecl_A as ht.attrs]; simp
+    rw [hfilt]
+    generalize (frameOf ((declRAttrs (sortDecls F)).reverse ++ attrRAttrs as) :: env) = env' at hfa ⊢
+    have hmap : (attrRAttrs as).map (fun a => (⟨resolveAttrName env' a.name, a.value⟩ : Attr)) = as := by
+      unfold attrRAttrs
+      rw [List.map_map]
+      conv => rhs; rw [← List.map_id as]
+      apply List.map_congr_left
+      intro a ha
+      simp only [Function.comp, id]
+      have hao := ht.attrs a ha
+      unfold resolveAttrName
+      cases hp : a.name.pfx with
+      | none =>
+        have := (hao.unprefixed hp).1
+        cases a with
+        | mk nm v => cases nm; simp_all
+      | some q =>
+        simp only []
+        have hn : needs a.name = true := by simp [needs, hp]
+        have := lookupNs_sat (F :: sst) _ hfa hgood a.name (hsat a.name (by simp; right; exact ⟨a, ha, rfl⟩)) hn
+          hao.xml (fun e => absurd e hao.notXmlns)
+        rw [hp] at this
+        rw [this]
+        cases a with
+        | mk nm v => cases nm; simp_all
+    rw [hmap]
+    exact dedup_id [] as ht.expanded (by simp)
+  · exact ⟨by rw [stackAgree_cons]; exact ⟨hbm, hR.stack⟩,
+      by intro f hf; simp at hf; rcases hf with rfl | hf; exact frameOf_clean _; exact hR.clean f hf,
+      hfa, hgood⟩
+
+/-! ### whole trees -/
+
+mutual
+/-- every tag of the tree is one the (fixed) parser can have produced -/
+def treeOK : Node → Prop
+  | .elem n as ks => TagOKP n as ∧ treesOK ks
+  | _ => True
+def treesOK : List Node → Prop
+  | [] => True
+  | n :: rest => treeOK n ∧ treesOK rest
+end
+
+mutual
+theorem serNode_ok : ∀ (nd : Node) (sst : List SMap) (pst : List NsMap) (env : List NsFrame),
+    Rel sst pst env → treeOK nd →
+    okEvs SerCfg.fixed LexCfg.fixed TbCfg.fixed pst (serNode SerCfg.fixed sst nd).1 = true ∧
+      (serNode SerCfg.fixed sst nd).2 = sst
+  | .elem n as ks, sst, pst, env, hR, hT => by
+    simp only [treeOK] at hT
+    obtain ⟨ht, hks⟩ := hT
+    obtain ⟨hbn, hba, hR'⟩ := elem_ok sst pst env hR n as ht
+    have ih := serNodes_ok ks _ _ _ hR' hks
+    have hsp := serNodes_spells SerCfg.fixed (topFixed sst n as :: sst) ks
+    simp only [serNode, startElem_fixed, endElem_fixed]
+    refine ⟨?_, by rw [ih.2]; rfl⟩
+    simp only [List.cons_append, okEvs, hbn, hba, beq_self_eq_true, Bool.true_and]
+    rw [okEvs_append SerCfg.fixed LexCfg.fixed TbCfg.fixed hsp, ih.1]
+    simp [okEvs]
+  | .text s, sst, pst, env, _, _ => by simp [serNode, okEvs]
+  | .comment s, sst, pst, env, _, _ => by simp [serNode, okEvs]
+  | .pi t d, sst, pst, env, _, _ => by simp [serNode, okEvs]
+  | .doctype n p sy, sst, pst, env, _, _ => by simp [serNode, okEvs]
+theorem serNodes_ok : ∀ (ns : List Node) (sst : List SMap) (pst : List NsMap) (env : List NsFrame),
+    Rel sst pst env → treesOK ns →
+    okEvs SerCfg.fixed LexCfg.fixed TbCfg.fixed pst (serNodes SerCfg.fixed sst ns).1 = true ∧
+      (serNodes SerCfg.fixed sst ns).2 = sst
+  | [], sst, pst, env, _, _ => by simp [serNodes, okEvs]
+  | nd :: rest, sst, pst, env, hR, hT => by
+    simp only [treesOK] at hT
+    have h1 := serNode_ok nd sst pst env hR hT.1
+    have hsp := serNode_spells SerCfg.fixed sst nd
+    simp only [serNodes]
+    rw [h1.2]
+    have h2 := serNodes_ok rest sst pst env hR hT.2
+    refine ⟨?_, h2.2⟩
+    rw [okEvs_append SerCfg.fixed LexCfg.fixed TbCfg.fixed hsp, h1.1, h2.1]
+    rfl
+end
+
+theorem rel_init : Rel [] [defaultMap] [] :=
+  ⟨rfl, by simp, trivial, by intro F hF; simp at hF⟩
+
+/-- **the fixed serializer declares everything**: for every tree whose tags are parser-produced, each
+written start tag resolves, in the scope of the declarations written so far, to the element's own name
+and attributes -/
+theorem okEvs_fixed (doc : List Node) (h : treesOK doc) :
+    okEvs SerCfg.fixed LexCfg.fixed TbCfg.fixed [defaultMap] (serDoc SerCfg.fixed doc) = true :=
+  (serNodes_ok doc [] [defaultMap] [] rel_init h).1
+
 end H5V.Lemmas.XmlSerFixed
